@@ -308,6 +308,10 @@ def check(run, fx, tier, floors=True):
     t11_tags(run, fx, floors)
     t11_packed(run, fx, floors)
     t11_base128(run, fx, floors)
+    if floors or fx.adt("tables::glyf::CompositeGlyphs") is not None:
+        # the glyf composite codec is shared: reader (used by the WOFF2 reconstruction) and writer must agree on the instruction flag
+        import rules_C15
+        rules_C15.c15_g(run, fx)
     if floors:
         run.floor("T11-LUT", "rows compared", run.by_rule["T11-LUT"]["obligations"], 128)
         run.floor("T11-TAGS", "tags compared", run.by_rule["T11-TAGS"]["obligations"], 64)
